@@ -26,6 +26,22 @@ class Obj:
     def __setattr__(self, k, v):
         self.__dict__['attrs'][k] = v
 
+    def __eq__(self, other):
+        # like ASTNode.__eq__ (structural); annotations (attributes starting with '_') do not count
+        if not isinstance(other, Obj):
+            return False
+        if self is other:
+            return True
+        a = {k: v for k, v in self.attrs.items() if not k.startswith('_')}
+        b = {k: v for k, v in other.attrs.items() if not k.startswith('_')}
+        return self.kind == other.kind and a == b
+
+    def __ne__(self, other):
+        return not self.__eq__(other)
+
+    def __hash__(self):
+        return id(self)
+
     def clone(self, memo=None):
         memo = {} if memo is None else memo
         if id(self) in memo:
@@ -334,8 +350,8 @@ class Interp:
                 elif isinstance(op, ast.LtE): r = left <= right
                 elif isinstance(op, ast.Gt): r = left > right
                 elif isinstance(op, ast.GtE): r = left >= right
-                elif isinstance(op, ast.Is): r = left is right
-                elif isinstance(op, ast.IsNot): r = left is not right
+                elif isinstance(op, ast.Is): r = (left is right) or (isinstance(left, ClassRef) and left == right)
+                elif isinstance(op, ast.IsNot): r = not ((left is right) or (isinstance(left, ClassRef) and left == right))
                 elif isinstance(op, ast.In): r = left in right
                 elif isinstance(op, ast.NotIn): r = left not in right
                 else:
@@ -414,6 +430,9 @@ class Interp:
                 cls = args[1]
                 cls = [c.name if isinstance(c, ClassRef) else c for c in (cls if isinstance(cls, (list, tuple)) else [cls])]
                 return self.is_instance(args[0], cls)
+            if n == 'type' and len(args) == 1:
+                o = args[0]
+                return ClassRef(o.kind) if isinstance(o, Obj) else type(o).__name__
             if n == 'hasattr':
                 o = args[0]
                 return isinstance(o, Obj) and args[1] in o.attrs
